@@ -75,7 +75,17 @@ def rule_reported_length(fb, res, rid="C04-R6"):
             def excuse(a):
                 """atom a (holding where the copy happens) is `size != 0` or `type != invalid`"""
                 if a[0] == "truth":
-                    return a[2] is True and strip_all_casts(facts.expand(ctor3, a[3])).get("decl") == sizep
+                    x3 = strip_all_casts(a[3])
+                    if x3.get("k") == "ref" and x3.get("dk") == "local" and (x3.get("t") or {}).get("k") == "bool" and len(facts.local_defs(ctor3).get(x3["decl"], [])) == 1:
+                        # a named condition: judged by the atoms of its definition
+                        sub = [b for b in facts.conjuncts(a[3], a[2], ctor3) if b[:3] != a[:3]]
+                        return bool(sub) and all(excuse(b) for b in sub)
+                    e3 = strip_all_casts(facts.expand(ctor3, a[3]))
+                    if e3.get("k") == "call" and (e3.get("callee") or {}).get("nm") == "empty" and fb.is_payload_buffer(e3.get("obj", {})):
+                        return a[2] is False  # the buffer was given `size` bytes: not empty <=> size != 0
+                    if e3.get("k") == "call" and (e3.get("callee") or {}).get("nm") == "size" and fb.is_payload_buffer(e3.get("obj", {})):
+                        return a[2] is True
+                    return a[2] is True and e3.get("decl") == sizep
                 if a[0] == "cmp":
                     for x, y, op in ((a[4], a[5], a[2]), (a[5], a[4], facts._flip_op(a[2]))):
                         xs = strip_all_casts(facts.expand(ctor3, x))
